@@ -1,12 +1,12 @@
 package props
 
 import (
-	"strconv"
 	"encoding/json"
 	"fmt"
 	"path"
 	"regexp"
 	"sort"
+	"strconv"
 	"strings"
 
 	"verif/harness/engine"
